@@ -1317,6 +1317,51 @@ impl Azks {
 
 type AppendOnlyHelper = (Vec<AzksElement>, Vec<AzksElement>);
 
+/// Add-only accessors used by the /verif model-checking harness (feature `verif_hooks`).
+#[cfg(feature = "verif_hooks")]
+pub mod verif_hooks {
+    use super::*;
+
+    /// Results of the (crate-private) node set operations for one set and one prefix
+    pub struct SetOps {
+        /// whether the set was represented as sorted / binary-searchable
+        pub binary_searchable: bool,
+        /// longest common prefix of the set
+        pub lcp: NodeLabel,
+        /// left part of the partition around the prefix
+        pub left: Vec<AzksElement>,
+        /// right part of the partition around the prefix
+        pub right: Vec<AzksElement>,
+        /// whether the set contains a label with the given prefix
+        pub contains_prefix: bool,
+    }
+
+    /// Runs partition / longest common prefix / contains_prefix on the set, either in the
+    /// representation `From<Vec<AzksElement>>` chooses or forced to the unsorted one.
+    pub fn set_ops<TC: Configuration>(
+        nodes: Vec<AzksElement>,
+        force_unsorted: bool,
+        prefix: NodeLabel,
+    ) -> SetOps {
+        let set = if force_unsorted {
+            AzksElementSet::Unsorted(nodes)
+        } else {
+            AzksElementSet::from(nodes)
+        };
+        let binary_searchable = matches!(set, AzksElementSet::BinarySearchable(_));
+        let lcp = set.get_longest_common_prefix::<TC>();
+        let contains_prefix = set.contains_prefix(&prefix);
+        let (left, right) = set.partition(prefix);
+        SetOps {
+            binary_searchable,
+            lcp,
+            left: left.to_vec(),
+            right: right.to_vec(),
+            contains_prefix,
+        }
+    }
+}
+
 #[cfg(test)]
 mod tests {
     use super::*;
